@@ -2243,12 +2243,22 @@ def replay_formats_agree(a):
                     note(f"validate -o json --show-summary {summ} {' '.join(extra)}", ok, exit=rc, got=str(got)[:300])
             # console summary table
             rc, o = run(["validate", "-r", "r.guard", "-d", "d.json", "--show-summary", "all"])
-            got = {"PASS": set(), "FAIL": set(), "SKIP": set()}
+            got = {"PASS": set(), "FAIL": set(), "SKIP": set()}          # by the status printed next to the rule
+            under = {"PASS": set(), "FAIL": set(), "SKIP": set()}        # by the header the line is printed under
+            hdr = None
             for line in o.splitlines():
+                h = re.match(r"^(PASS|FAILED|SKIP) rules\s*$", line)
+                if h:
+                    hdr = {"PASS": "PASS", "FAILED": "FAIL", "SKIP": "SKIP"}[h.group(1)]
                 m = re.match(r"^r\.guard/(\w+)\s+(PASS|FAIL|SKIP)\s*$", line)
                 if m:
                     got[m.group(2)].add(m.group(1))
-            note("validate --show-summary all (console table)", rc == rc0 and got == sets, exit=rc, got={k: sorted(v) for k, v in got.items()})
+                    if hdr:
+                        under[hdr].add(m.group(1))
+            status_line = re.search(r"Status = (PASS|FAIL|SKIP)", o)
+            note("validate --show-summary all (console table)", rc == rc0 and got == sets and under == sets and
+                 (status_line is None or status_line.group(1) == ref.get("status")), exit=rc, got={k: sorted(v) for k, v in got.items()},
+                 under_header={k: sorted(v) for k, v in under.items()})
             # data on stdin and as payload
             rc, o = run(["validate", "-r", "r.guard", "--structured", "-o", "json", "--show-summary", "none"], stdin=data)
             try:
@@ -2428,10 +2438,138 @@ def reporter_chain(a):
             k += 1
 
 
+def library_entry_wiring(a):
+    """validate_and_return_json - the entry point of run_checks (library API, Lambda, FFI): same evaluation pair and the same
+    report builder as the CLI"""
+    OF = enum_variants(a.src, "commands/validate.rs", "OutputFormatType")
+
+    def m_parser(ex, argv):
+        return ex.fresh_result(ex.fresh_enum("Option", 2, "parsed", {"Some": ex.opq()}), "pr")
+    saved = a.enums
+    a.enums = dict(a.enums, OutputFormatType=OF)
+    ex = a.exec(r"(?:commands::helper::)?validate_and_return_json",
+                {"from_str": m_result_opq, "try_from": m_result_opq, "map_err": mirexec.m_identity, "rules_file": m_parser,
+                 "new_extra": lambda ex, av: ex.opq(), "root_scope": m_scope, "eval_rules_file": mirexec.m_result_status,
+                 "reset_recorder": lambda ex, av: ex.opq(), "extract": lambda ex, av: ex.opq(), "report_eval": mirexec.m_result_unit,
+                 "to_string_pretty": m_result_opq, "from_utf8": m_result_opq, RC_NEW: mirexec.m_identity, "clone": mirexec.m_identity,
+                 "from": lambda ex, av: ex.opq(), "to_owned": mirexec.m_identity, "to_string": mirexec.m_identity,
+                 "to_vec": lambda ex, av: ex.opq(), "buffer": lambda ex, av: ex.opq(), "empty": lambda ex, av: ex.opq()},
+                log=("new",), unroll=1, max_paths=20000)
+    a.enums = saved
+    a.fns.append("commands::helper::validate_and_return_json (library / Lambda / FFI entry)")
+    bad, nev = [], 0
+    for p in ex.paths:
+        r = p.ret
+        if p.outcome != "return" or not r or r[0] != "enum" or r[1] != "Result":
+            bad.append(pc_term(p.pc))
+            continue
+        evs = calls(p, "eval_rules_file")
+        tf = [e for e in calls(p, "try_from") if e[3][0] == "enum"]
+        pr = [e for e in calls(p, "rules_file") if e[3][0] == "enum"]
+        reps = calls(p, "report_eval")
+        xs, rr = calls(p, "extract"), calls(p, "reset_recorder")
+        probs = []
+        if len(evs) > 1:
+            probs.append("evaluated more than once")
+        if evs:
+            nev += 1
+            rules = pr[0][3][3]["Ok"][3]["Some"] if pr and pr[0][3][3]["Ok"][0] == "enum" else None
+            doc = tf[-1][3][3]["Ok"] if tf else None
+            probs += pair_wiring(ex, p, lambda i: rules, lambda i: doc, lambda i: None)
+            ok_rec = bool(rr) and bool(xs) and same(rr[0][2][0], evs[0][2][1]) and same(xs[0][2][0], rr[0][3])
+            if not ok_rec and (reps or calls(p, "to_string_pretty")):
+                probs.append("the record tree is not taken from this evaluation's scope")
+            for rp in reps:
+                args = rp[2][1:]
+                if not (len(args) == 8 and xs and args[1][0] == "enum" and args[1][2] == evs[0][3][3]["Ok"][2] and same(args[2], xs[0][3])):
+                    probs.append("the reporter does not receive this evaluation's status and record tree")
+                if not (args[-1][0] == "enum" and args[-1][1] == "OutputFormatType" and args[-1][2] == str(OF.index("JSON"))):
+                    probs.append("the library report is not rendered as JSON")
+            for e in calls(p, "to_string_pretty"):
+                if not (xs and same(e[2][0], xs[0][3])):
+                    probs.append("verbose returns something other than this evaluation's record tree")
+            if len(reps) + len(calls(p, "to_string_pretty")) > 1:
+                probs.append("rendered twice")
+        elif reps:
+            probs.append("a report without an evaluation")
+        bad.append(f"(and {pc_term(p.pc)} {'true' if probs else 'false'})")
+    c = a.discharge("library-entry/same-pair-same-report", ex, bad,
+                    f"validate_and_return_json ({nev} evaluating paths): the parsed rules and the converted data document are evaluated once, in "
+                    "a scope built from exactly them; the JSON report is rendered by the generic reporter from that evaluation's status and "
+                    "record tree (the same report builder as the CLI); verbose returns that same record tree")
+    if c:
+        c["replay"] = replay_library(a)
+        c["reproduced"] = c["replay"].get("reproduced", False)
+        a.candidates.append(c)
+
+
+LIB_TEST = r'''
+// written by /verif (replay of a library-entry candidate); lives only in the scratch copy
+use cfn_guard::{run_checks, ValidateInput};
+#[test]
+fn zz_verif_library_report() {
+    let data = "{\"a\":\n 1}\n";
+    for (label, rules) in [__CASES__] {
+        let out = run_checks(ValidateInput { content: data, file_name: "d.json" }, ValidateInput { content: rules, file_name: "r.guard" }, false);
+        println!("VERIF-LIB {} {}", label, match out { Ok(s) => s.replace('\n', " "), Err(e) => format!("ERR {}", e) });
+    }
+}
+'''
+
+
+def replay_library(a):
+    """run_checks (library entry) against the structured CLI report on three rules files: same status, same PASS / SKIP /
+    FAIL sets. Compiles a throw-away integration test inside the scratch copy."""
+    import os, subprocess
+    exe = a.cli()
+    if not exe:
+        return {"reproduced": False, "note": "native build failed"}
+    cases = {"mixed": "rule p1 {\n  a == 1\n}\nrule f1 {\n  a == 2\n}\nrule s1 when a == 2 {\n  a == 1\n}\n",
+             "allpass": "rule p1 {\n  a == 1\n}\nrule s1 when a == 2 {\n  a == 1\n}\n",
+             "allskip": "rule s1 when a == 2 {\n  a == 1\n}\n"}
+    tfile = os.path.join(a.src, "guard", "tests", "zz_verif_lib.rs")
+    body = LIB_TEST.replace("__CASES__", ", ".join('("%s", %s)' % (k, json.dumps(v)) for k, v in cases.items()))
+    env = dict(os.environ)
+    env["CARGO_NET_OFFLINE"] = "true"
+    env["RUST_BACKTRACE"] = "0"
+    base = os.path.basename(a.src.rstrip("/"))
+    env["CARGO_TARGET_DIR"] = os.path.join(os.path.dirname(a.src.rstrip("/")), "native-target" if base == "src" else "native-target-" + base)
+    env.pop("RUSTUP_TOOLCHAIN", None)
+    try:
+        open(tfile, "w").write(body)
+        pr = subprocess.run(["cargo", "test", "--offline", "-p", "cfn-guard", "--test", "zz_verif_lib", "--", "--nocapture"], cwd=a.src, env=env,
+                            capture_output=True, text=True, timeout=1800)
+    finally:
+        if os.path.exists(tfile):
+            os.remove(tfile)
+    got = {}
+    for line in pr.stdout.splitlines():
+        m = re.match(r"^VERIF-LIB (\w+) (.*)$", line)
+        if m:
+            got[m.group(1)] = m.group(2)
+    if len(got) != len(cases):
+        return {"reproduced": False, "note": "library replay did not run: " + (pr.stderr or pr.stdout)[-300:]}
+    out = []
+    for label, rtext in cases.items():
+        rc, rep, err = a.run_structured(exe, rtext, ['{"a":\n 1}\n'])
+        try:
+            lib = json.loads(got[label])
+            ref = rep[0]
+            same_ = (lib.get("status") == ref.get("status") and set(lib.get("compliant", [])) == set(ref.get("compliant", []))
+                     and set(lib.get("not_applicable", [])) == set(ref.get("not_applicable", []))
+                     and {x["Rule"]["name"] for x in lib.get("not_compliant", []) if "Rule" in x} == {x["Rule"]["name"] for x in ref.get("not_compliant", []) if "Rule" in x})
+        except Exception as e:
+            same_, lib = False, f"unparsable ({e}): {got[label][:200]}"
+        if not same_:
+            out.append({"rules_file": rtext, "library_report": str(lib)[:400], "cli_structured_report": str(rep)[:400]})
+    return {"reproduced": bool(out), "mismatches": out[:2], "cases": list(cases)}
+
+
 
 SITES = {
     "C06": [structured_report, structured_parse_closure, junit_exit_code, junit_test_case, junit_report, validate_execute_step, test_generic_report],
     "C12": [structured_report, junit_test_case, data_input_wiring, data_input_params_wiring, structured_merge_closure, test_get_by_result, test_structured_evaluate],
+    "C07": [flags_verdict_wiring, reporter_chain, library_entry_wiring, structured_report, junit_test_case, validate_execute_step],
     "C16": [test_generic_report, test_get_by_result, test_get_by_rules, test_structured_evaluate],
     "C09": [report_partition, report_rule_listing],
     "C15": [scope_resolution, param_rule_call, param_ctx_resolve],
